@@ -27,7 +27,7 @@ CLAIMS = {
              "field that a tabled completion method clears, or captured by a clearing callback on every path; the "
              "counting waits clear at zero; event-type tokens and namedtuple indices agree between poster and "
              "dispatcher; QueuedEvent wait/clear typestate. Lost wake-ups of arbitrary user handlers and the "
-             "relative timing of clears are not decided. Also: the handlers' result reaches the completion callback as ev_result, stored before the callback is queued. Also: sufficiency of the boolean abort and the relay merge (nothing but type and result decide); a clearing callback whose registration key is stored per wait is removed only through that key and clears its own queue on every path; the game-end and ball-end stop loops stop every matching mode (no further condition, whole collection, no early exit, bookkeeping before stop()). Also: the queue-event handler loop is never left early (every registered handler is asked before the queue decides); the relay/queue dispatch of _run_handlers merges kwargs and evaluates conditions the same way as the plain dispatch; game and ball stop loops select exactly the modes flagged to stop, with their book-keeping done before the stop is requested. Also: Mode.start touches the queue of the starting event only once the request is accepted (after every refusal exit).",
+             "relative timing of clears are not decided. Also: the handlers' result reaches the completion callback as ev_result, stored before the callback is queued. Also: sufficiency of the boolean abort and the relay merge (nothing but type and result decide); a clearing callback whose registration key is stored per wait is removed only through that key and clears its own queue on every path; the game-end and ball-end stop loops stop every matching mode (no further condition, whole collection, no early exit, bookkeeping before stop()). Also: the queue-event handler loop is never left early (every registered handler is asked before the queue decides); the relay/queue dispatch of _run_handlers merges kwargs and evaluates conditions the same way as the plain dispatch; game and ball stop loops select exactly the modes flagged to stop, with their book-keeping done before the stop is requested. Also: Mode.start touches the queue of the starting event only once the request is accepted (after every refusal exit). Also: the queue-event runner evaluates a handler's condition at that handler's turn, on the merged kwargs; replace_handler registers with the priority it was given.",
         technique="taint of **kwargs into post_queue; CFG must-pass/dominance/facts for wait-clear typestate; table agreement",
         ref="4/C02"),
     "C03": dict(
@@ -85,7 +85,7 @@ CLAIMS = {
              "default, required ones raise; build_spec deep-copies, a section overrides its bases, nothing but "
              "load_mode_config_spec stores into the shared spec and validation never writes the cached merged spec; "
              "the time-suffix cascade strips len(suffix), has no shadowed branch and the SI multipliers; secs/ms "
-             "sibling validators use the converter of their unit. Type soundness over all YAML values is not decided. Also: no validator falls off its end and None is answered only for an absent value; template validators assert the raw type before building. Also: a validator that checks membership in the declared value set returns the very value it checked; in _validate_config exactly the provided keys are validated and exactly the missing ones defaulted, only `ignore` / private keys are left alone, every key that is not in the spec is rejected; no time string in the repository is parsed in the other unit and rescaled. Also: int() is the outermost (last) operation of string_to_ms / string_to_secs conversions (rounded once). Also: a validator returns the given value unconverted only under an isinstance / predicate test on it; text recognisers used by validators match the whole string.",
+             "sibling validators use the converter of their unit. Type soundness over all YAML values is not decided. Also: no validator falls off its end and None is answered only for an absent value; template validators assert the raw type before building. Also: a validator that checks membership in the declared value set returns the very value it checked; in _validate_config exactly the provided keys are validated and exactly the missing ones defaulted, only `ignore` / private keys are left alone, every key that is not in the spec is rejected; no time string in the repository is parsed in the other unit and rescaled. Also: int() is the outermost (last) operation of string_to_ms / string_to_secs conversions (rounded once). Also: a validator returns the given value unconverted only under an isinstance / predicate test on it; text recognisers used by validators match the whole string. Also: a dict setting reaches key/value validation only as a mapping (the event-list form is for event_handler settings); is_power2 is the bit test on a non-zero number.",
         technique="table agreement (spec file vs validator table vs signatures); CFG must-pass; who-may-write; suffix-shadowing and constant folding",
         ref="4/C12"),
     "C14": dict(
@@ -100,7 +100,7 @@ CLAIMS = {
              "and remembered-state store is dominated by the CRC-equal and complete-frame sides; CRC8 table equals the "
              "polynomial 0x07 table; OPP resync only on a gen2 address byte, one byte at a time; FAST message "
              "processors apply switch data synchronously (no deferral). Split-invariance as such and switch states "
-             "after arbitrary valid streams are not decided. Also: OPP input bits are the data bytes assembled big-endian and each changed bit is reported once with its index and polarity; every round of a parser loop consumes input; every known frame type is dispatched. Also: every changed OPP input bit is reported (exact selection) and the FAST full switch report is unpacked completely (8 bits per byte, number = offset * 8 + bit, state = that bit). Also: the OPP resync scan regains sync on every gen2 frame start that the in-sync branch dispatches (a command-byte test in the scan must name all of them). Also: every trip of the OPP poll loop sends a poll, also after a timed-out wait; the answer flag is cleared only after an answer.",
+             "after arbitrary valid streams are not decided. Also: OPP input bits are the data bytes assembled big-endian and each changed bit is reported once with its index and polarity; every round of a parser loop consumes input; every known frame type is dispatched. Also: every changed OPP input bit is reported (exact selection) and the FAST full switch report is unpacked completely (8 bits per byte, number = offset * 8 + bit, state = that bit). Also: the OPP resync scan regains sync on every gen2 frame start that the in-sync branch dispatches (a command-byte test in the scan must name all of them). Also: every trip of the OPP poll loop sends a poll, also after a timed-out wait; the answer flag is cleared only after an answer. Also: the incremental decoders leave their decode loop only when no complete frame is buffered (or at shutdown), never because of a frame's content.",
         technique="wake-up/arm agreement of asyncio primitives; who-may-call; CFG guards; slice/length constant agreement; generated CRC table oracle",
         ref="4/C14"),
     "C07": dict(
@@ -117,7 +117,7 @@ CLAIMS = {
              "permanently while being loaded is removed (by stored keys or by callback) when the mode unloads it; "
              "enable/disable idempotence guards read the state they write; active_modes is mutated only by "
              "set_mode_state and sorted by (priority, name) descending after every change. Registry equality for "
-             "arbitrary user mode code and overlapping requests beyond the flag guards are not decided. Also: switch handlers are removed by key; add_mode_event_handler forwards kwargs and returns the key; clear_context loops act on their records. Also: every non-empty result of a start method is recorded as a stop method and every recorded stop method runs unconditionally. Also: the returned EventHandlerKey carries the parsed event name and the stored key; removal by key is exact; mode delays live on the mode's own DelayManager; clear_context never removes handlers by method or by event. Also: the start queue a mode parks is released and forgotten when it has stopped (shared with C02); every clean-up step of a device_removed_from_mode is unconditional or guarded only by the presence of the object it acts on.",
+             "arbitrary user mode code and overlapping requests beyond the flag guards are not decided. Also: switch handlers are removed by key; add_mode_event_handler forwards kwargs and returns the key; clear_context loops act on their records. Also: every non-empty result of a start method is recorded as a stop method and every recorded stop method runs unconditionally. Also: the returned EventHandlerKey carries the parsed event name and the stored key; removal by key is exact; mode delays live on the mode's own DelayManager; clear_context never removes handlers by method or by event. Also: the start queue a mode parks is released and forgotten when it has stopped (shared with C02); every clean-up step of a device_removed_from_mode is unconditional or guarded only by the presence of the object it acts on. Also: a config player plays for a mode only while that mode is active, under the mode's own context.",
         technique="event-chain extraction; CFG must-pass typestate; who-may-write; sibling agreement over ConfigPlayer/ModeDevice subclasses",
         ref="4/C07"),
     "C05": dict(
@@ -138,7 +138,7 @@ CLAIMS = {
              "is only added to or reset after the hand-over; the hand-over requests exactly the scheduled number; a mode "
              "end flushes it); the wait for the ball to leave is unbounded only for a player-controlled request on a "
              "hand-operated device and otherwise bounded by the eject timeout, as are the confirm waits. "
-             "Liveness in general and cancellation races are not decided. Also: every list of waiters (futures) of the ball-device classes is resolved completely and emptied only afterwards; wake-up flags are consumed right after the wake-up; exactly the timed-out incoming balls are removed and reported lost. Also: a request for balls split over several sources adds up to the requested total; waiter lists are swapped out before their futures are woken; BallDevice decides by its own book-keeping and never by the physical count read-back. Also: BallDevice.eject makes one request per requested ball and never leaves its loop early; a handler coroutine that cancels its own task awaits nothing afterwards; the ball searches over sources / targets say no only after every candidate was asked.",
+             "Liveness in general and cancellation races are not decided. Also: every list of waiters (futures) of the ball-device classes is resolved completely and emptied only afterwards; wake-up flags are consumed right after the wake-up; exactly the timed-out incoming balls are removed and reported lost. Also: a request for balls split over several sources adds up to the requested total; waiter lists are swapped out before their futures are woken; BallDevice decides by its own book-keeping and never by the physical count read-back. Also: BallDevice.eject makes one request per requested ball and never leaves its loop early; a handler coroutine that cancels its own task awaits nothing afterwards; the ball searches over sources / targets say no only after every candidate was asked. Also: every site that fills a request's eject time-out scales the configured ms value to seconds.",
         technique="typestate pairing on the coroutine CFG (trackers, locks, futures); guard analysis; boolean-event handler return check",
         ref="4/C05"),
     "C04": dict(
@@ -154,7 +154,7 @@ CLAIMS = {
              "exactly one ball to the ball_missing_target and reports one missing ball, takes one available ball off "
              "exactly when a replacement was found on the path and is requested for the device that lost it; the arrival "
              "callback sets up one eject per unclaimed ball and announces balls_available once per new ball. Equality with the physical machine, conservation and bounds over all "
-             "schedules - the bulk of the property - are NOT decided (runtime arithmetic over interleavings). Also: a ball assumed to have jumped between playfields leaves both counts of the source and enters both of the target, only towards a playfield with a negative count, one ball per deficit. Also: lost/ejected/incoming ball handlers and the arrival loops move exactly one ball per event. Also: the count handler's old-count snapshot is read after the await that delivers the new count and nothing is awaited before the new count is stored; the switch counter distrusts a jam-only count of one exactly when it had balls before; end_eject is told the awaited confirmation outcome (or False), never an assumed True; ball-search give-up writes off exactly the playfield's count read before it is zeroed.",
+             "schedules - the bulk of the property - are NOT decided (runtime arithmetic over interleavings). Also: a ball assumed to have jumped between playfields leaves both counts of the source and enters both of the target, only towards a playfield with a negative count, one ball per deficit. Also: lost/ejected/incoming ball handlers and the arrival loops move exactly one ball per event. Also: the count handler's old-count snapshot is read after the await that delivers the new count and nothing is awaited before the new count is stored; the switch counter distrusts a jam-only count of one exactly when it had balls before; end_eject is told the awaited confirmation outcome (or False), never an assumed True; ball-search give-up writes off exactly the playfield's count read before it is zeroed. Also: a ball put into another device's unclaimed pool is taken out of the device's own pool on the same path (CLAIM-4, exposed defect F19, fixed).",
         technique="CFG must-pass / guard analysis; who-may-call / who-may-write; paired-delta extraction",
         ref="4/C04"),
     "C06": dict(
@@ -184,7 +184,7 @@ CLAIMS = {
              "requires, software fade steps are clamped and end on the target; a running software fade is cancelled "
              "before a newer command takes effect; the batch system records every value it sends and skips only "
              "finished fades equal to the recorded state. Correctness of the suppression shortcuts over histories, "
-             "interpolated values and batching are not decided. Also: colour read from stack[0] and a transparent entry defers to exactly stack[1:]; both colours gamma/colour corrected before the channel split, white = min(r,g,b); set_fade ends in a command for the target or a fade task whose last command is the target; every dirty light ends up in a sent batch, unfinished fades are rescheduled and the scheduler is woken; the blend ratio of a running fade is (t - start) / (end - start), used only where start < t <= end, with the endpoint itself returned outside (interpolation never leaves the endpoints); a new fade starts from the colour shown below the new entry, read before the old entry of the same key is removed. Also: start and target brightness of every channel come from the same formula under the same conditions; a light joins a running batch exactly when it directly succeeds the previous one and a brightness joins the running list exactly within the fade tolerance and batch size; the dirty flag is consumed right after the wake-up; stack scans match the key / opaque entries exactly; each key's fade-out has its own clean-up timer and starts from the colour of the removed key's own layer. Also: the per-key fade timer name is shared by arm and cancel sites; the suppression shortcuts index the remembered (colour, fade, done) tuple by its layout.",
+             "interpolated values and batching are not decided. Also: colour read from stack[0] and a transparent entry defers to exactly stack[1:]; both colours gamma/colour corrected before the channel split, white = min(r,g,b); set_fade ends in a command for the target or a fade task whose last command is the target; every dirty light ends up in a sent batch, unfinished fades are rescheduled and the scheduler is woken; the blend ratio of a running fade is (t - start) / (end - start), used only where start < t <= end, with the endpoint itself returned outside (interpolation never leaves the endpoints); a new fade starts from the colour shown below the new entry, read before the old entry of the same key is removed. Also: start and target brightness of every channel come from the same formula under the same conditions; a light joins a running batch exactly when it directly succeeds the previous one and a brightness joins the running list exactly within the fade tolerance and batch size; the dirty flag is consumed right after the wake-up; stack scans match the key / opaque entries exactly; each key's fade-out has its own clean-up timer and starts from the colour of the removed key's own layer. Also: the per-key fade timer name is shared by arm and cancel sites; the suppression shortcuts index the remembered (colour, fade, done) tuple by its layout. Also: the handle of the running software fade is written only where fades are started or replaced, never by the fade coroutine.",
         technique="who-may-write; CFG must-pass / definite assignment; guard analysis; unit inference; sibling interface completeness",
         ref="4/C09"),
     "C10": dict(
@@ -199,7 +199,7 @@ CLAIMS = {
              "config_spec defaults: flippers and autofire coils enable exactly on ball_started, flippers/autofires/kickbacks "
              "disable on ball_will_end and service_mode_entered; every X_events key of a device section has an event_X "
              "method and disable outranks enable on the same event; a tilt always ends the ball. Equality of the platform's "
-             "rule table with the enabled set over histories and timeout timing are not decided. Also: the flags that make tilt() return early are reset in Game._run before its first await; the end-ball flag is cleared before any await of _run_ball and end_ball sets it. Also: a running game is ended only through end_game() / end_ball(): no caller stops the game mode directly.",
+             "rule table with the enabled set over histories and timeout timing are not decided. Also: the flags that make tilt() return early are reset in Game._run before its first await; the end-ball flag is cleared before any await of _run_ball and end_ball sets it. Also: a running game is ended only through end_game() / end_ball(): no caller stops the game mode directly. Also: the end of a tilt clears the game's tilted flag whenever a game exists, releases a held ball_ending queue and removes the tilt's handlers.",
         technique="handle-flow pairing; CFG guards/must-pass; who-may-call; config-spec table checks",
         ref="4/C10"),
     "C11": dict(
@@ -218,7 +218,7 @@ CLAIMS = {
              "VariablePlayer.clear_context examines every block entry; which player is addressed: variable_player "
              "writes (var, value) through add/set_with_kwargs to the current player or to player_list[N - 1] for a "
              "configured number N, machine variables only for *_machine actions, and both access paths of the player "
-             "placeholder index player_list[N] after an existence check or read the current player. Also: at turn start every game mode is re-bound (nothing but is_game_mode selects, all modes visited) and the ball-end barrier waits for every game mode that stops at ball end. Also: a new player's variable events are switched on (all values sent) by the completion callback of player_added; score-queue additions are conserved; a lazily remembered selection of a mode device is dropped on every unload path (MEMO-11); the generic mode-start auto-enable is never in effect for a device whose enable() writes persisted enable flags, its own or its members' (RESTORE-11). Also: every clean-up step of a device_removed_from_mode runs whenever the device is unloaded; the per-player restart list is filled at ball end for exactly the active game modes that ask for it, started completely and replaced by an empty list at the player's next ball.",
+             "placeholder index player_list[N] after an existence check or read the current player. Also: at turn start every game mode is re-bound (nothing but is_game_mode selects, all modes visited) and the ball-end barrier waits for every game mode that stops at ball end. Also: a new player's variable events are switched on (all values sent) by the completion callback of player_added; score-queue additions are conserved; a lazily remembered selection of a mode device is dropped on every unload path (MEMO-11); the generic mode-start auto-enable is never in effect for a device whose enable() writes persisted enable flags, its own or its members' (RESTORE-11). Also: every clean-up step of a device_removed_from_mode runs whenever the device is unloaded; the per-player restart list is filled at ball end for exactly the active game modes that ask for it, started completely and replaced by an empty list at the player's next ball. Also: the previous value in the change event is the stored value itself (0 only for a new variable); a mode loads its devices with its own player.",
         technique="who-may-write; CFG must-pass through super() chains; def-use discovery of player-bound attributes; freshness of stored values",
         ref="4/C11"),
     "C15": dict(
@@ -232,7 +232,7 @@ CLAIMS = {
              "record contains every key the loader reads, only persistent variables are written, expired or malformed "
              "records are skipped; FileManager.save is called only by the writer thread. Known finding F6b: nothing waits "
              "for the daemon writer thread at shutdown. Crash points (no fsync reasoning) and value equality after reload "
-             "are not decided. Also: the writer loop runs while the machine is not stopped and writes exactly when the dirty flag was raised; every well-formed, unexpired record is restored and a record is skipped only when malformed or expired. Also: the record fields are updated before the disk write is requested and expiry = now + expire_secs; the temp file location and per-target name; the YAML writer and reader open with the same explicitly named text encoding; the writer threads are told to stop only in MachineController.shutdown, which _do_stop reaches after the `shutdown` event was posted and the queue drained. Also: the shutdown flush depends on nothing but the dirty flag (a busy file manager is waited for); every expiry deadline is wall-clock now + expire_secs and the loader is handed the wall clock.",
+             "are not decided. Also: the writer loop runs while the machine is not stopped and writes exactly when the dirty flag was raised; every well-formed, unexpired record is restored and a record is skipped only when malformed or expired. Also: the record fields are updated before the disk write is requested and expiry = now + expire_secs; the temp file location and per-target name; the YAML writer and reader open with the same explicitly named text encoding; the writer threads are told to stop only in MachineController.shutdown, which _do_stop reaches after the `shutdown` event was posted and the queue drained. Also: the shutdown flush depends on nothing but the dirty flag (a busy file manager is waited for); every expiry deadline is wall-clock now + expire_secs and the loader is handed the wall clock. Also: the handler of a failed write only logs (nothing in it can raise and end the writer thread); loading converts exactly maps to dict and sequences to list.",
         technique="CFG pairing on normal and exceptional paths; order/dominance; dead-guard check; record-key table agreement",
         ref="4/C15"),
     "C16": dict(
@@ -260,7 +260,7 @@ CLAIMS = {
              "runs before completion events; pause/advance/step_back cancel the pending step first; LightPlayer colours under "
              "key=full_context and clear_context/remove use the same key and record, the light's removal scans are left early "
              "only at the key; ShowPlayer and CoilPlayer clear what they started. k-th step instants under speed updates, "
-             "token substitution and concurrent shows on one light are not decided. Also: played/looped/completed/stopped events are queued and posted at their moments; start-step table and negative index wrap; the light player honours the stop colour and forwards the step's start time. Also: advance() / step_back() cancel the pending step, rebase the clock and move the index before they run the step (once, last). Also: a per-show token cache is keyed by the token values (CACHE-17); the events list of a step is fresh per play; replace_or_advance_show keeps or advances the running instance only when it has already run a step and stands exactly at / one step before the requested step (SYNC-17); RunningShow.update applies every value that is not None (UPD-17). Also: every play parameter reaches the RunningShow under its own name on every route (Show.play, play_show_with_config, replace_or_advance_show, ShowPlayer._play/_queue, ShowConfig field order), defaults replace only None; a replaced running show is stopped on every path that starts its successor; the show player's action table and instance actions; config players change handed settings only in a private copy.",
+             "token substitution and concurrent shows on one light are not decided. Also: played/looped/completed/stopped events are queued and posted at their moments; start-step table and negative index wrap; the light player honours the stop colour and forwards the step's start time. Also: advance() / step_back() cancel the pending step, rebase the clock and move the index before they run the step (once, last). Also: a per-show token cache is keyed by the token values (CACHE-17); the events list of a step is fresh per play; replace_or_advance_show keeps or advances the running instance only when it has already run a step and stands exactly at / one step before the requested step (SYNC-17); RunningShow.update applies every value that is not None (UPD-17). Also: every play parameter reaches the RunningShow under its own name on every route (Show.play, play_show_with_config, replace_or_advance_show, ShowPlayer._play/_queue, ShowConfig field order), defaults replace only None; a replaced running show is stopped on every path that starts its successor; the show player's action table and instance actions; config players change handed settings only in a private copy. Also: the show-pool pass-throughs hand every parameter on under its own name.",
         technique="expression-shape and CFG dominance on the step path; loop-account guards; key-agreement between register and clear sites",
         ref="4/C17"),
     "C18": dict(
@@ -274,7 +274,7 @@ CLAIMS = {
              "against the direction, an accepted hit adds it once, completion compares >= (up) / <= (down); a sequence "
              "advances by one only for the current step, an accrual records and reports a step on its first hit; the block "
              "timeout is armed on enable/reset, cancelled on disable/complete and resets the block. The counting equation "
-             "over histories and timeout races are not decided. Also: the multiple-hit window timer is (re)started only by an accepted hit.",
+             "over histories and timeout races are not decided. Also: the multiple-hit window timer is (re)started only by an accepted hit. Also: Counter.count moves the value for every hit on an enabled counter outside the multiple-hit window; delayed control events are scheduled as anonymous delays of their own.",
         technique="CFG guard dominance; must-pass pairing of window entry/exit; who-may-cancel a named delay; unit inference",
         ref="4/C18"),
     "C19": dict(
@@ -302,7 +302,7 @@ CLAIMS = {
              "service and credit-event handlers are registered and removed as a set (by handler identity); on every path "
              "of the unit computation, for every ordering of smallest coin and game price, the credit unit is bounded by "
              "both (ordering-only abstract walk) and units per game is price / unit. The pricing-table arithmetic (tier "
-             "bonuses) as such is not decided. Also: the credit-unit tiers are evaluated against the running total (TIER-1); the per-switch flags reset together (FLAG-20); both credit timers are armed with reset semantics and by every path that adds a fraction (UNIT-7); pricing settings come from the settings controller. Also: every coin through a credit switch is credited, audited and re-arms the time-outs unconditionally, audits are saved on every path; the pricing table is rebuilt from scratch.",
+             "bonuses) as such is not decided. Also: the credit-unit tiers are evaluated against the running total (TIER-1); the per-switch flags reset together (FLAG-20); both credit timers are armed with reset semantics and by every path that adds a fraction (UNIT-7); pricing settings come from the settings controller. Also: every coin through a credit switch is credited, audited and re-arms the time-outs unconditionally, audits are saved on every path; the pricing table is rebuilt from scratch. Also: the coin handlers are registered only after removing a previous registration (exposed defect F20, fixed) and every registered switch handler is remembered for removal; each audit counter is created with the first figure and added to afterwards.",
         technique="classification + feasible-path bound check of every store; ordering-domain abstract walk of the unit computation; table agreement gate/price; who-may-write; unit check against the config spec",
         ref="4/C20"),
 }
